@@ -32,10 +32,20 @@ const (
 	c04taImportedInLocal            // Pair<Lib.Seq<X>, string>
 	c04taLocalAliasOfImported       // LocalBox<X>     (LocalBox<T> = Lib.Box<T>)
 	c04taCompoundArgument           // Lib.Box<X*>
+	// structural carriers: the definition is reached only through a position of a structural type (no generic involved).
+	// Not every target fits every position (a map key must be a primitive scalar, possibly through an alias; an optional
+	// alias is no union case): where the real validator rejects the model nothing is asserted.
+	c04taMapValue    // string->X
+	c04taMapKey      // X->int
+	c04taArrayItem   // X[]
+	c04taFixedVector // X*3
+	c04taUnionCase   // [int, X]
+	c04taMapInVector // (uint->X)*
 	c04taNCarriers
 )
 
-var c04taCarrierNames = []string{"Pair<X,int>", "Lib.Box<X>", "Opt<X>", "Lib.Seq<X>", "Lib.Box<Pair<int,X>>", "Pair<Lib.Seq<X>,string>", "LocalBox<X>", "Lib.Box<X*>"}
+var c04taCarrierNames = []string{"Pair<X,int>", "Lib.Box<X>", "Opt<X>", "Lib.Seq<X>", "Lib.Box<Pair<int,X>>", "Pair<Lib.Seq<X>,string>", "LocalBox<X>", "Lib.Box<X*>",
+	"string->X", "X->int", "X[]", "X*3", "[int,X]", "(uint->X)*"}
 
 const (
 	c04taStep = iota
@@ -139,8 +149,20 @@ func c04taBuild(target, carrier, where int, ps, ebase string, edit int) *c04taMo
 		c = b.st("Pair", b.st("Lib.Seq", x()), m.prim(b, "string"))
 	case c04taLocalAliasOfImported:
 		c = b.st("LocalBox", x())
-	default:
+	case c04taCompoundArgument:
 		c = b.st("Lib.Box", b.vec(x()))
+	case c04taMapValue:
+		c = b.mapOf(m.prim(b, "string"), x())
+	case c04taMapKey:
+		c = b.mapOf(x(), m.prim(b, "int"))
+	case c04taArrayItem:
+		c = b.gt(&dsl.Array{NodeMeta: b.meta()}, x())
+	case c04taFixedVector:
+		c = b.fvec(x(), 3)
+	case c04taUnionCase:
+		c = b.gt(nil, m.prim(b, "int"), x())
+	default:
+		c = b.vec(b.mapOf(m.prim(b, "uint"), x()))
 	}
 	first := b.step("first", m.prim(b, "int"))
 	var steps []*dsl.ProtocolStep
@@ -277,7 +299,12 @@ func C04TypeArgs(small int) {
 	verifOut("edit", edit)
 	ps := verifOneOf("ps", c04P1...)
 	ebase := verifOneOf("ebase", "uint8", "int64")
+	structural := carrier >= c04taMapValue
 	s1, missing1, ok1 := c04taSchema(c04taBuild(target, carrier, where, ps, ebase, c04taEditNone))
+	if structural && !ok1 {
+		verifReach("c04-typeargs-position-does-not-take-the-target")
+		return
+	}
 	verifAssert("base-validates", ok1)
 	verifOut("missing", missing1)
 	verifAssert("schema-lists-every-type-the-protocol-depends-on", missing1 == "")
@@ -293,6 +320,10 @@ func C04TypeArgs(small int) {
 		}
 	}
 	s2, missing2, ok2 := c04taSchema(c04taBuild(target, carrier, where, ps2, ebase2, edit))
+	if structural && !ok2 {
+		verifReach("c04-typeargs-position-does-not-take-the-edited-target")
+		return
+	}
 	verifAssert("edited-validates", ok2)
 	verifAssert("schema-lists-every-type-the-protocol-depends-on", missing2 == "")
 	verifOut("schema", s1)
